@@ -16,9 +16,10 @@ Ltac lk := repeat (rewrite lookup_insert_other by congruence); repeat (rewrite l
 Lemma route_frame s o a x : op_alias s o = Some a -> x <> a -> at_alias x (fst (rstep s o)) = at_alias x s.
 Proof.
   intros Ha Hx. unfold at_alias.
-  destruct o as [sid al unrel hasU|al|sid|al|al unrel hasU|al|al node|sid al|sid|k al|al node]; cbn [op_alias] in Ha;
+  destruct o as [sid al unrel hasU|rsid ral|al|sid|al|al unrel hasU|al|al node|sid al|sid|k al|al node]; cbn [op_alias] in Ha;
     try (injection Ha as ->); cbn [rstep].
   - cbn. now lk.
+  - discriminate Ha.
   - reflexivity.
   - rewrite Ha. cbn. now lk.
   - reflexivity.
@@ -39,8 +40,9 @@ Lemma route_frame_ids s o sid' :
   lookup sid' (t_dnalias (fst (rstep s o))) = lookup sid' (t_dnalias s).
 Proof.
   intros H1 H2 H3 H4.
-  destruct o as [sid al unrel hasU|al|sid|al|al unrel hasU|al|al node|sid al|sid|k al|al node]; cbn [rstep].
+  destruct o as [sid al unrel hasU|rsid ral|al|sid|al|al unrel hasU|al|al node|sid al|sid|k al|al node]; cbn [rstep].
   - specialize (H1 _ _ _ _ eq_refl). cbn. split; [now lk | reflexivity].
+  - now split.
   - now split.
   - specialize (H2 _ eq_refl). destruct (lookup sid (t_upalias s)); cbn; split; try reflexivity. now lk.
   - now split.
@@ -101,8 +103,9 @@ Proof.
   assert (D1 : below (t_next s + 1) (t_ackc s)) by (apply (below_mono (t_next s)); [lia | exact D]).
   assert (Hn : t_next s < t_next s + 1) by lia.
   assert (Same : fresh_inv s /\ t_next s <= t_next s) by (split; [now repeat split | lia]).
-  destruct o as [sid al unrel hasU|al|sid|al|al unrel hasU|al|al node|sid al|sid|k al|al node]; cbn [rstep].
+  destruct o as [sid al unrel hasU|rsid ral|al|sid|al|al unrel hasU|al|al node|sid al|sid|k al|al node]; cbn [rstep].
   - cbn. split; [repeat split; auto; now apply below_insert | lia].
+  - exact Same.
   - exact Same.
   - destruct (lookup sid (t_upalias s)); [|exact Same]. cbn. split; [repeat split; auto; now apply below_remove | lia].
   - exact Same.
@@ -132,8 +135,9 @@ Lemma created_is_new s o ch : fresh_inv s -> snd (rstep s o) = Created ch ->
 Proof.
   intros (A & B & C & D) Hc.
   assert (Hch : ch = t_next s).
-  { destruct o as [sid al unrel hasU|al|sid|al|al unrel hasU|al|al node|sid al|sid|k al|al node]; cbn [rstep snd] in Hc.
+  { destruct o as [sid al unrel hasU|rsid ral|al|sid|al|al unrel hasU|al|al node|sid al|sid|k al|al node]; cbn [rstep snd] in Hc.
     - now injection Hc.
+    - discriminate.
     - destruct (lookup al (t_acks s)); discriminate.
     - destruct (lookup sid (t_upalias s)); discriminate.
     - destruct (lookup al (t_writers s)); discriminate.
@@ -145,4 +149,16 @@ Proof.
     - destruct (lookup al (tbl k s)); discriminate.
     - destruct (lookup al (t_meta s)) as [m|]; [|discriminate]. destruct (lookup node m); discriminate. }
   subst ch. intros k x H. destruct k; cbn [tbl] in H; [apply A in H | apply B in H | apply C in H | apply D in H]; lia.
+Qed.
+
+(* operations that name no registered alias change nothing at all: the close of a stream id that has
+   no alias entry on this connection (its resume still unanswered, or refused), and a refused open
+   or resume *)
+Lemma route_unregistered_noop s o :
+  (exists sid, o = CloseUp sid /\ lookup sid (t_upalias s) = None) \/
+  (exists sid, o = CloseDn sid /\ lookup sid (t_dnalias s) = None) \/
+  (exists sid a, o = OpenUpRefused sid a) ->
+  fst (rstep s o) = s.
+Proof.
+  intros [(sid & -> & H) | [(sid & -> & H) | (sid & a & ->)]]; cbn [rstep]; try rewrite H; reflexivity.
 Qed.
